@@ -320,13 +320,12 @@ mod real {
         // the burst
         let total = 20 + rng.usize_below(if ctx.thorough() { 400 } else { 120 }) as u32;
         let members: Vec<&'static str> = (0..total).map(|k| if k % 2 == 1 { "Odd" } else { "Even" }).collect();
-        let odd_count = members.iter().filter(|m| **m == "Odd").count();
         // consumers
         let mut joins = Vec::new();
         for (k, (r, s, how)) in streams.into_iter().enumerate() {
             let admits = rs[r].1;
-            let ends_with_marker = r != 3;
-            let want_n = if ends_with_marker { usize::MAX } else { odd_count };
+            // (streams of the member-specific rule never see End: a last `Odd` signal numbered u32::MAX - 1, sent after End, is their marker)
+            let want_n = usize::MAX;
             let slow = rng.chance(1, 3);
             joins.push(std::thread::spawn(move || {
                 let mut s = s;
@@ -343,6 +342,9 @@ mod real {
                             break;
                         }
                         let seq: u32 = m.body().deserialize().unwrap_or(u32::MAX);
+                        if seq == u32::MAX - 1 {
+                            break;
+                        }
                         got.push((member, seq));
                         if slow && got.len() % 7 == 0 {
                             std::thread::sleep(Duration::from_micros(300));
@@ -375,6 +377,7 @@ mod real {
             b.emit_signal(None::<&str>, "/s", iface.as_str(), *m, &(k as u32)).map_err(|e| format!("emit on the real bus: {e}"))?;
         }
         b.emit_signal(None::<&str>, "/s", iface.as_str(), "End", &(u32::MAX)).map_err(|e| format!("emit on the real bus: {e}"))?;
+        b.emit_signal(None::<&str>, "/s", iface.as_str(), "Odd", &(u32::MAX - 1)).map_err(|e| format!("emit on the real bus: {e}"))?;
         ctx.count("real_signals_sent", total as u64 + 1);
         // collect, guarded by a generous watchdog (its firing is INCONCLUSIVE, not a verdict)
         let (tx, rx) = std::sync::mpsc::channel();
